@@ -161,7 +161,7 @@ func (e *Engine) intrinsic3(name string, args []any) (any, bool) {
 	case "IfBytes":
 		return BytesV{E: "(ite " + boolE(args[0]) + " " + bytesE(args[1]) + " " + bytesE(args[2]) + ")"}, true
 	case "AppendSpare":
-		e.appendSpare = int(args[0].(int64))
+		e.appendSpare, e.appendSpareChosen = int(args[0].(int64)), -1
 		return nil, true
 	case "ShortScenario": // clock assumption: all further clock readings are at most d after base
 		e.clockBudget = "(+ " + args[0].(TimeV).E + " " + intE(args[1]) + ")"
